@@ -827,6 +827,13 @@ func (fsm *fsm) sendNotification(conn net.Conn, msg *bgp.BGPMessage) error {
 	return err
 }
 
+// closeCollided closes the connection that lost the connection collision
+// resolution with a Cease NOTIFICATION (RFC 4271 6.8, RFC 4486).
+func (fsm *fsm) closeCollided(conn net.Conn) {
+	// sendNotification closes the connection.
+	_ = fsm.sendNotification(conn, bgp.NewBGPNotificationMessage(bgp.BGP_ERROR_CEASE, bgp.BGP_ERROR_SUB_CONNECTION_COLLISION_RESOLUTION, nil))
+}
+
 func (fsm *fsm) start(wg *sync.WaitGroup, callback func(*fsmMsg)) {
 	ctx, cancel := context.WithCancel(context.Background())
 	fsm.h = &fsmHandler{
@@ -1570,7 +1577,7 @@ func (h *fsmHandler) opensent(ctx context.Context) (bgp.FSMState, *fsmStateReaso
 				if isDominant {
 					// close the incoming connection
 					fsm.logger.Debug("collision detected: dominant on active side, close the incoming connection")
-					fsm.conn.Close()
+					fsm.closeCollided(fsm.conn)
 					fsm.conn = outConn.conn
 					fsm.lock.Lock()
 					fsm.recvOpen = outConn.open
@@ -1578,7 +1585,7 @@ func (h *fsmHandler) opensent(ctx context.Context) (bgp.FSMState, *fsmStateReaso
 				} else {
 					// close the outgoing connection
 					fsm.logger.Debug("collision detected: dominant on passive side, close the outgoing connection")
-					outConn.conn.Close()
+					fsm.closeCollided(outConn.conn)
 				}
 			}
 
@@ -1604,13 +1611,13 @@ func (h *fsmHandler) opensent(ctx context.Context) (bgp.FSMState, *fsmStateReaso
 			if !fsm.isDominant(result.open.Body.(*bgp.BGPOpen)) {
 				// close the outgoing connection, go on with the incoming one
 				fsm.logger.Debug("collision detected: dominant on passive side, close the outgoing connection")
-				result.conn.Close()
+				fsm.closeCollided(result.conn)
 				break
 			}
 			// close the incoming connection; whatever arrived on it is
 			// dropped with it.
 			fsm.logger.Debug("collision detected: dominant on active side, close the incoming connection")
-			fsm.conn.Close()
+			fsm.closeCollided(fsm.conn)
 			fsm.conn = result.conn
 			fsm.lock.Lock()
 			fsm.recvOpen = result.open
@@ -1727,7 +1734,7 @@ func (h *fsmHandler) openconfirm(ctx context.Context) (bgp.FSMState, *fsmStateRe
 			// initiated by the speaker with the higher BGP Identifier survives.
 			if !fsm.isDominant(result.open.Body.(*bgp.BGPOpen)) {
 				fsm.logger.Debug("collision detected: dominant on passive side, close the outgoing connection")
-				result.conn.Close()
+				fsm.closeCollided(result.conn)
 				break
 			}
 			fsm.logger.Debug("collision detected: dominant on active side, close the incoming connection")
@@ -1739,7 +1746,7 @@ func (h *fsmHandler) openconfirm(ctx context.Context) (bgp.FSMState, *fsmStateRe
 				break
 			}
 			fsm.bgpMessageStateUpdate(bgp.BGP_MSG_KEEPALIVE, false)
-			fsm.conn.Close()
+			fsm.closeCollided(fsm.conn)
 			fsm.lock.Lock()
 			fsm.conn = result.conn
 			fsm.recvOpen = result.open
